@@ -25,7 +25,13 @@ RULE = ("seeded generator. Codec: EncodePunchPacket on valid/invalid types and m
         "nonce text used as id, as app/cmd/server.go does); full ServerPuncher.Respond runs (registration, hello ticker, completion by a "
         "hello/ack of the attempt, by timeout or by cancellation, duplicate and other-spelling registrations while in flight) followed by "
         "late/retransmitted punch packets of the finished attempt plus a marker datagram (must come out of ReadFrom byte-identical, in order) "
-        "and by re-registration of the same id (must succeed, and its packets are withheld again). Thorough adds concurrent add/remove while reading under -race, linearised and replayed through the model. "
+        "and by re-registration of the same id (must succeed, and its packets are withheld again); Respond through EVERY exit: the validation "
+        "exits (empty id, malformed metadata, no compatible peer candidate: IPv6-only / IPv4-mapped / port 0 / zero AddrPort / empty list / "
+        "family mismatch; negative timeout; negative interval; zero timeout and interval = defaults), the duplicate-id exit while another "
+        "Respond with that id waits (the waiting one must stay registered and still get its packets), success, timeout, cancellation, each "
+        "with the puncher's lifetime context (the one given to NewServerPuncher; the Respond context is not derived from it) cancelled "
+        "before the call, right after registration, between datagrams, or after the event; after every return both registries are read "
+        "directly (PunchPacketConn.attempts = exactly the calls in progress) and late packets + marker + re-registration follow. Thorough adds concurrent add/remove while reading under -race, linearised and replayed through the model. "
         "Every Go result is compared (a) with the Coq model inside the kernel and (b) with an independent python/hashlib reference. "
         "Non-trivial = a packet that decodes, a near miss (damaged/cross-attempt/window boundary), or a history in which at least one "
         "datagram is withheld and one is passed. Distinct = distinct JSON case.")
@@ -38,7 +44,8 @@ ASSUMPTIONS = [
     "the attempt registry is accessed only under PunchPacketConn.mu, so Add/Remove and the registry scan of one datagram are atomic (the LTS steps)",
 ]
 TRUSTED = ["modelled rather than verified: extras/realm/punch.go, punch_conn.go, server_punch.go, addrToAddrPort (hand transcription in coq/model/C20_Punch.v); "
-           "stun.go:204-244 and pion/stun are an oracle",
+           "stun.go:204-244 and pion/stun are an oracle; candidatePunchAddrs (punch_engine.go) enters Respond's model only through the number of "
+           "candidates it returns (read from the run), the select loop of Respond only through which case returned",
            "python reference codec (hashlib) used for the additional independent verdict"]
 PER_SHARD = 160
 EXTRA_TARGETS = ["corr/C20_Corr.vo"]
@@ -495,6 +502,247 @@ def gen_respond(rng, nhist):
     return cases
 
 
+V4_PEERS = ["192.0.2.7:40000", "198.51.100.9:40001", "203.0.113.5:1", "10.1.2.3:65535"]
+V6_PEERS = ["[2001:db8::7]:40000", "[2001:db8:1::9]:443", "[fe80::1]:5000"]
+V4IN6_PEERS = ["[::ffff:192.0.2.9]:40000"]
+PORT0_PEERS = ["192.0.2.7:0", "[2001:db8::7]:0"]
+
+
+def peer_kind(p):
+    if p == "":
+        return "invalid"
+    if p.endswith(":0"):
+        return "port0"
+    if p.startswith("[::ffff:"):
+        return "v4in6"
+    return "v6" if p.startswith("[") else "v4"
+
+
+def peers_compatible(peers, fam):
+    """independent reading of candidatePunchAddrs' filter for a socket bound to an IPv4 address"""
+    if peers is None:
+        return 1
+    n = 0
+    for p in peers:
+        k = peer_kind(p)
+        if (fam != 2 and k == "v4") or (fam == 2 and k in ("v6", "v4in6")):
+            n += 1
+    return n
+
+
+def peers_for(rng, usable):
+    """(peers, family) for Respond on the harness socket (127.0.0.1)"""
+    junk = V6_PEERS + V4IN6_PEERS + PORT0_PEERS + [""]
+    if usable:
+        r = rng.random()
+        if r < 0.3:
+            return None, 0
+        if r < 0.8:
+            ps = [rng.choice(V4_PEERS) for _ in range(rng.randint(1, 2))] + [rng.choice(junk) for _ in range(rng.randint(0, 2))]
+            rng.shuffle(ps)
+            return ps, rng.choice([0, 0, 1])
+        ps = [rng.choice(V6_PEERS + V4IN6_PEERS)] + [rng.choice(V4_PEERS + PORT0_PEERS + [""]) for _ in range(rng.randint(0, 1))]
+        rng.shuffle(ps)
+        return ps, 2
+    r = rng.random()
+    if r < 0.15:
+        return [], rng.choice([0, 1, 2])
+    if r < 0.4:
+        return [rng.choice(V6_PEERS) for _ in range(rng.randint(1, 2))], rng.choice([0, 1])      # IPv6-only peer, IPv4 socket
+    if r < 0.5:
+        return [rng.choice(V4IN6_PEERS)], rng.choice([0, 1])
+    if r < 0.65:
+        return [rng.choice(PORT0_PEERS) for _ in range(rng.randint(1, 2))], rng.choice([0, 1, 2])
+    if r < 0.75:
+        return [""] * rng.randint(1, 2), rng.choice([0, 1, 2])
+    if r < 0.9:
+        return [rng.choice(V4_PEERS) for _ in range(rng.randint(1, 2))] + [rng.choice(PORT0_PEERS)], 2   # family mismatch
+    return [rng.choice(junk) for _ in range(rng.randint(2, 4))], rng.choice([0, 1])
+
+
+def rstart_expect(op, reg):
+    """which exit Respond takes, read off the arguments (reference; the order is the order of the checks)"""
+    if op["id"] == "":
+        return "id"
+    if meta_ok(op["nonce"], op["obfs"]) is None:
+        return "meta"
+    if peers_compatible(op.get("peers"), op.get("fam", 0)) == 0:
+        return "cand"
+    if op.get("tmo") is not None and op["tmo"] < 0:
+        return "timeout"
+    if op.get("itv") is not None and op["itv"] < 0:
+        return "interval"
+    if op["id"] in reg:
+        return "dup"
+    return "block"
+
+
+INVALID_KINDS = ["id", "meta", "cand", "cand", "cand", "timeout", "timeout", "interval", "interval"]
+
+
+def gen_respond_exits(rng, nhist):
+    """ServerPuncher.Respond through every exit.  (a) the puncher's lifetime context is cancelled (pstop) before the call,
+    right after the registration, between datagrams or after the event, and Respond then leaves by its own context, its
+    timeout or (if the dispatcher was still there) an event; (b) calls whose arguments fail one of the checks, and calls
+    under an id that another, waiting Respond holds.  After every return: late punch packets of that attempt + a marker
+    (must reach the reader), then the id is registered again (must succeed)."""
+    cases = []
+    for _ in range(nhist):
+        pg = PktGen(rng)
+        pool = [(respell(rng, n), respell(rng, k)) for n, k in (new_meta(rng) for _ in range(4))]
+        outsider = new_meta(rng)
+        ops, addids, reg = [], [], {}
+        st = {"alive": True, "mk": 0}
+
+        def pkt(data, kind):
+            return {"err": False, "hex": data.hex(), "addr": gen_addr(rng, pg.next_port(), "v4"), "kind": kind, "sx": False}
+
+        def mark():
+            st["mk"] += 1
+            return pkt(marker(rng, st["mk"]), "marker")
+
+        def noise(k, excl=None):
+            cands = [v for v in reg.values() if v != excl] + [outsider]
+            return [pg.make(cands, "v4" if rng.random() < 0.7 else None) for _ in range(k)]
+
+        def call(i, m, bad=None, **kw):
+            """an rstart op; bad = the check that is to fail"""
+            op = {"op": "rstart", "id": i, "nonce": m[0], "obfs": m[1], "tick": 0}
+            peers, fam = peers_for(rng, bad != "cand")
+            if peers is not None or fam:
+                op["peers"], op["fam"] = peers, fam
+            if bad == "id":
+                op["id"] = ""
+            elif bad == "meta":
+                op["nonce"], op["obfs"] = bad_meta(rng)
+            elif bad == "timeout":
+                op["tmo"] = rng.choice([-1, -400, -10000])
+            elif bad == "interval":
+                op["itv"] = rng.choice([-1, -50, -1000])
+            if bad not in ("timeout",) and rng.random() < 0.3:
+                op["tmo"] = rng.choice([0, 800, 120])            # 0 = defaultPunchTimeout
+            if bad not in ("interval",) and rng.random() < 0.3:
+                op["itv"] = rng.choice([0, 20, 150])             # 0 = defaultPunchInterval
+            if bad == "cand" and rng.random() < 0.2:
+                op["tmo"] = -5                                   # two checks fail: the first one in program order decides
+            if bad == "timeout" and rng.random() < 0.2:
+                op["itv"] = -1
+            op.update(kw)
+            # the hello ticker periods the harness lets pass must stay inside the timeout
+            tmo = {None: 400, 0: 10000}.get(op.get("tmo"), op.get("tmo"))
+            itv = {None: 50, 0: 100}.get(op.get("itv"), op.get("itv"))
+            while op["tick"] > 0 and op["tick"] * itv >= tmo:
+                op["tick"] -= 1
+            return op
+
+        def after_return(i, m, free=True, excl=None):
+            """late / retransmitted packets of the attempt of a call that has returned, a marker, then the id again"""
+            late = noise(rng.randint(0, 1), excl=excl)
+            if meta_ok(*m) is not None:
+                for _ in range(rng.randint(1, 2)):
+                    late.append(pkt(pg.punch(m, ty=rng.choice([1, 1, 2])), "punch-late"))
+            late.append(mark())
+            ops.append({"op": "pkts", "pkts": late})
+            if not free or i == "" or meta_ok(*m) is None or i in reg or any(v == m for v in reg.values()):
+                return
+            r = rng.random()
+            if r < 0.55:
+                ops.append({"op": "add", "id": i, "nonce": m[0], "obfs": m[1]})
+                reg[i] = m
+                ops.append({"op": "pkts", "pkts": noise(rng.randint(0, 1)) + [pkt(pg.punch(m), "punch"), mark()]})
+                ops.append({"op": "rm", "id": i})
+                reg.pop(i)
+                if rng.random() < 0.5:
+                    ops.append({"op": "pkts", "pkts": [pkt(pg.punch(m), "punch-late"), mark()]})
+            elif r < 0.8:
+                ops.append(call(i, m))
+                reg[i] = m
+                batch = noise(rng.randint(0, 1), excl=m) + [pkt(pg.punch(m, ty=1), "punch-finishing" if st["alive"] else "punch-unrouted"), mark()]
+                ops.append({"op": "pkts", "pkts": batch})
+                ops.append({"op": "rend", "end": rng.choice(["timeout", "cancel"])})
+                reg.pop(i)
+                ops.append({"op": "pkts", "pkts": [pkt(pg.punch(m), "punch-late"), mark()]})
+
+        def invalid_call(i, m, waiting=None):
+            """a call that fails a check; waiting = (id, meta) of the Respond that is blocked meanwhile"""
+            bad = rng.choice(INVALID_KINDS)
+            op = call(i, m, bad)
+            ops.append(op)
+            mm = (op["nonce"], op["obfs"])
+            # packets under the metadata this call passed are nobody's (unless they are the waiting attempt's)
+            if waiting is not None and (mm == waiting[1] or op["id"] == waiting[0]):
+                return
+            after_return(op["id"], mm, free=waiting is None, excl=waiting[1] if waiting else None)
+
+        # another attempt in progress
+        if rng.random() < 0.4:
+            m = pool[3]
+            i = rng.choice([m[0], "Attempt-0", "aB"])
+            ops.append({"op": "add", "id": i, "nonce": m[0], "obfs": m[1]})
+            reg[i] = m
+            addids.append(i)
+        plan = rng.choice(["none", "before", "registered", "registered", "between", "between", "after-event", "invalid-only"])
+        for ci in range(rng.randint(1, 2)):
+            m = pool[ci]
+            i = m[0] if rng.random() < 0.8 else rng.choice(["Ab", "RESPOND-%d" % ci, respell(rng, m[0])])
+            if i in reg:
+                continue
+            for _ in range(rng.choice([0, 1, 1, 2]) if plan != "invalid-only" else rng.randint(2, 3)):
+                invalid_call(i, m)
+            if plan == "invalid-only":
+                continue
+            if plan == "before" and st["alive"]:
+                ops.append({"op": "pstop"})
+                st["alive"] = False
+            ops.append(call(i, m, tick=rng.choice([0, 0, 1, 2])))
+            reg[i] = m
+            if plan == "registered" and st["alive"]:
+                ops.append({"op": "pstop"})
+                st["alive"] = False
+            # calls that return at once while this one waits
+            for _ in range(rng.choice([0, 1, 1, 2])):
+                r = rng.random()
+                if r < 0.45:      # same id, arguments fine: duplicate
+                    m2 = m if rng.random() < 0.6 else pool[2]
+                    ops.append(call(i, m2))
+                elif r < 0.7:     # same id, arguments not fine: the check fails before the id is looked at
+                    ops.append(call(i, m, rng.choice(["cand", "timeout", "interval"])))
+                else:             # another id, arguments not fine
+                    invalid_call(pool[2][0], pool[2], waiting=(i, m))
+                if rng.random() < 0.5:
+                    ops.append({"op": "pkts", "pkts": noise(rng.randint(1, 2), excl=m) + [mark()]})
+            event = False
+            if plan == "between":
+                ops.append({"op": "pkts", "pkts": noise(rng.randint(1, 3), excl=m) + [mark()]})
+                if st["alive"]:
+                    ops.append({"op": "pstop"})
+                    st["alive"] = False
+            if st["alive"] and (plan == "after-event" or rng.random() < 0.6):
+                event = True
+                batch = noise(rng.randint(0, 2), excl=m) + [pkt(pg.punch(m, ty=rng.choice([1, 1, 2])), "punch-finishing")]
+                for _ in range(rng.randint(0, 2)):
+                    batch.append(pkt(pg.punch(m, ty=1), "punch-late"))
+                batch.append(mark())
+                ops.append({"op": "pkts", "pkts": batch})
+                if plan == "after-event":
+                    ops.append({"op": "pstop"})
+                    st["alive"] = False
+            elif not st["alive"]:
+                # its packets are still withheld (it is registered) but nobody forwards them: Respond keeps waiting
+                batch = noise(rng.randint(0, 2), excl=m)
+                for _ in range(rng.randint(1, 2)):
+                    batch.append(pkt(pg.punch(m, ty=rng.choice([1, 2])), "punch-unrouted"))
+                batch.append(mark())
+                ops.append({"op": "pkts", "pkts": batch})
+            ops.append({"op": "rend", "end": rng.choice(["timeout", "timeout", "cancel", "cancel"])})
+            reg.pop(i)
+            after_return(i, m)
+        for i in addids:
+            ops.append({"op": "take", "id": i})
+        cases.append({"k": "server", "cap": rng.choice([0, 1, 4, 16]), "buf": 2048, "ops": ops, "hist": "respond-exits"})
+    return cases
+
+
 def gen_conc(rng, n):
     cases = []
     for _ in range(n):
@@ -524,6 +772,7 @@ def gen(rng, tier):
     cases += gen_demux(rng, 90 * scale)
     cases += gen_demux(rng, 30 * scale, server=True)
     cases += gen_respond(rng, 40 * scale)
+    cases += gen_respond_exits(rng, 50 * scale)
     return cases
 
 
@@ -568,6 +817,10 @@ def lst(xs):
     return "[" + "; ".join(xs) + "]"
 
 
+ROBS = {"id": "(ObsErr REId)", "meta": "(ObsErr REMeta)", "cand": "(ObsErr RECand)", "timeout": "(ObsErr RETimeout)",
+        "interval": "(ObsErr REInterval)", "dup": "ObsDup"}
+
+
 def to_coq(c, o):
     k = c["k"]
     if k == "enc":
@@ -600,9 +853,16 @@ def to_coq(c, o):
             elif op["op"] == "take":
                 ops.append("SOpTake %s %s" % (cstr(op["id"]), lst(ev_term(e) for e in oo["evs"])))
             elif op["op"] == "rstart":
-                if "ok" not in oo:
+                if "ok" not in oo or "ncand" not in oo:
                     return None
-                ops.append("SOpRStart %s %s %s" % (cstr(op["id"]), meta_term(op["nonce"], op["obfs"]), "true" if oo["ok"] else "false"))
+                tmo = 400 if op.get("tmo") is None else op["tmo"]           # c20RespondTimeout / c20RespondInterval, ms
+                itv = 50 if op.get("itv") is None else op["itv"]
+                args = "(mkRA %s %s %d%%nat (%d)%%Z (%d)%%Z)" % (cstr(op["id"]), meta_term(op["nonce"], op["obfs"]), oo["ncand"],
+                                                               tmo * 1000000, itv * 1000000)
+                obs = "ObsBlocked" if oo["ok"] else ROBS.get(oo.get("err"), "ObsOther")
+                ops.append("SOpRStart %s %s" % (args, obs))
+            elif op["op"] == "pstop":
+                ops.append("SOpStop")
             elif op["op"] == "rend":
                 ops.append("SOpREnd %s %s" % ("true" if oo["res"] == "noevent" else "false",
                                               "(Some %s)" % ev_term(oo["ev"]) if oo["res"] == "ok" else "None"))
@@ -692,16 +952,27 @@ def py_server_verdict(c, o):
     reg = {}
     fl = None          # id of the Respond that is still waiting
     flres = None       # output of its rend
+    alive = True       # the dispatch goroutine is running
     for oi, (op, oo) in enumerate(zip(c["ops"], o["ops"])):
         kind = op["op"]
-        if kind in ("add", "rstart"):
+        if kind == "pstop":
+            alive = False
+        elif kind in ("add", "rstart"):
             if "ok" not in oo:
                 return None
-            valid = op["id"] != "" and meta_ok(op["nonce"], op["obfs"]) is not None and op["id"] not in reg
+            if kind == "add":
+                valid = op["id"] != "" and meta_ok(op["nonce"], op["obfs"]) is not None and op["id"] not in reg
+                exit_ = "accepted" if valid else "rejected"
+            else:
+                exit_ = rstart_expect(op, reg)
+                valid = exit_ == "block"
             if valid != oo["ok"]:
-                return "python: op %d %s(%r) accepted=%s, reference (registry keyed by the exact id string) expects %s" % (
-                    oi, "addAttempt" if kind == "add" else "Respond", op["id"], oo["ok"], valid)
+                return "python: op %d %s(%r) %s, reference (arguments checked in program order, registry keyed by the exact id string) expects %s" % (
+                    oi, "addAttempt" if kind == "add" else "Respond", op["id"],
+                    ("accepted" if kind == "add" else "registered and waits") if oo["ok"] else "returned at once (%s)" % oo.get("err", "rejected"), exit_)
             if valid:
+                if kind == "rstart" and fl is not None:
+                    return None      # not a history the generator makes
                 reg[op["id"]] = (op["nonce"], op["obfs"])
                 if kind == "rstart":
                     fl = op["id"]
@@ -732,7 +1003,7 @@ def py_server_verdict(c, o):
                 if not hits:
                     exp.append((common.digest(data), p["addr"]["port"], False))
                     continue
-                if fl in hits:
+                if fl in hits and alive:
                     took = (flres is not None and flres.get("res") == "ok" and flres["ev"]["port"] == p["addr"]["port"])
                     if len(hits) == 1 and not took:
                         return "python: op %d Respond(%r) did not return on the first punch packet of its attempt (source port %d)" % (
@@ -772,6 +1043,7 @@ def pkt_hist(cases, outs):
     for c, o in zip(cases, outs):
         if c["k"] not in ("demux", "server") or "ops" not in o or len(o["ops"]) != len(c["ops"]):
             continue
+        stopped = waiting = False
         for op, oo in zip(c["ops"], o["ops"]):
             if op["op"] in ("rstart", "rend", "add", "rm") and c["k"] == "server":
                 oid = op.get("id", "")
@@ -780,6 +1052,23 @@ def pkt_hist(cases, outs):
                 if op["op"] in ("rstart", "add"):
                     key += ":id-" + idc
                 h[key] = h.get(key, 0) + 1
+                if op["op"] == "rstart":
+                    key = "respond-call:" + ("registered" if oo.get("ok") else "returned-" + str(oo.get("err")))
+                    if stopped:
+                        key += ":puncher-context-cancelled"
+                    h[key] = h.get(key, 0) + 1
+                if op["op"] == "rend":
+                    key = "respond-exit:%s%s" % ("event" if oo.get("res") == "ok" else op.get("end") if oo.get("res") == "noevent" else "none",
+                                                 ":puncher-context-cancelled" if stopped else "")
+                    h[key] = h.get(key, 0) + 1
+            if op["op"] == "pstop":
+                stopped = True
+                key = "srv:pstop:" + ("respond-waiting" if waiting else "idle")
+                h[key] = h.get(key, 0) + 1
+            if op["op"] == "rstart" and oo.get("ok"):
+                waiting = True
+            if op["op"] == "rend":
+                waiting = False
             if op["op"] != "pkts" or "ret" not in oo:
                 continue
             passed = {r["port"] for r in oo["ret"] if not r["err"]}
@@ -1038,7 +1327,9 @@ def replay(ctx, path):
 LEVEL_TEXT = ("Machine-checked Coq theorems over a statement-by-statement Gallina model of the punch codec (EncodePunchPacket/DecodePunchPacket, "
               "hex metadata, SHA-256 mask), the PunchPacketConn demultiplexer as a labelled transition system over its atomic sections "
               "(AddPunchAttempt, RemovePunchAttempt, one datagram through the ReadFrom loop, event channels) and the ServerPuncher routing and "
-              "Respond life cycle (both registries keyed by the exact id string; after Respond has returned the id is in neither registry, late "
+              "Respond life cycle (both registries keyed by the exact id string; for every outcome of Respond - each validation exit, the duplicate-id "
+              "exit, success, timeout, cancellation, with the puncher's lifetime context cancelled at any point - the exits before the registration "
+              "change nothing (a waiting Respond with the same id stays registered), and after Respond has returned the id is in neither registry, late "
               "packets of the finished attempt reach the reader unchanged and the id can be registered again): "
               "for every datagram, source address, registry history, event-buffer size and map-iteration order, a datagram is withheld iff it "
               "is a STUN binding response or decodes under a currently registered attempt (from a usable UDP source), otherwise it is returned "
